@@ -116,11 +116,11 @@ Proof.
     - destruct (visit fuel fs child gacc) as [g2|e] eqn:Evis; [|rewrite fold_err in Hf; discriminate].
       destruct (reaches (List.length g2) g2 child path); [rewrite fold_err in Hf; discriminate|].
       destruct (IH fs child gacc g2 Evis) as [V1 V2 V3 V4]. destruct Hacc as (A1 & A2 & A3 & A4).
-      apply (IHl _ gres Hf). set (g3 := add_out path (resolved path inc, child) g2).
+      apply (IHl _ gres Hf). set (g3 := add_out path (resolved fs path inc, child) g2).
       assert (S23 : edges_sub g2 g3) by apply add_out_edges_sub.
       assert (Hp2 : has_node path g2 = true) by (apply V3; exact A1).
       assert (Hedge : reach g3 path child).
-      { apply (reach_step g3 path (resolved path inc, child) child); [apply add_out_new_edge; exact Hp2 | constructor]. }
+      { apply (reach_step g3 path (resolved fs path inc, child) child); [apply add_out_new_edge; exact Hp2 | constructor]. }
       split; [apply add_out_nodes_sub; exact Hp2|].
       split; [exact (edges_sub_trans _ _ _ A2 (edges_sub_trans _ _ _ V2 S23))|].
       split; [exact (nodes_sub_trans _ _ _ A3 (nodes_sub_trans _ _ _ V3 (add_out_nodes_sub _ _ _)))|].
@@ -162,7 +162,7 @@ Proof.
         - destruct (visit fuel fs child gacc) as [g2|e] eqn:Evis; [|rewrite fold_err in Hf; discriminate].
           destruct (reaches (List.length g2) g2 child path); [rewrite fold_err in Hf; discriminate|].
           destruct (IHf child gacc g2 Evis Hn) as [R1 R2].
-          assert (R3 : root_of (add_out path (resolved path inc, child) g2) = root_of g2 /\ add_out path (resolved path inc, child) g2 <> []).
+          assert (R3 : root_of (add_out path (resolved fs path inc, child) g2) = root_of g2 /\ add_out path (resolved fs path inc, child) g2 <> []).
           { destruct g2 as [|m r]; [contradiction|]. cbn. destruct (String.eqb path (n_path m)); cbn; split; try reflexivity; discriminate. }
           destruct R3 as [R3 R4]. destruct (IHl _ gres Hf R4) as [R5 R6]. split; [congruence | exact R6].
         - destruct (i_optional inc); [exact (IHl gacc gres Hf Hn) | rewrite fold_err in Hf; discriminate]. }
@@ -175,7 +175,7 @@ Proof.
       - destruct (visit (List.length fs) fs child gacc) as [g2|e] eqn:Evis; [|rewrite fold_err in Hf; discriminate].
         destruct (reaches (List.length g2) g2 child root); [rewrite fold_err in Hf; discriminate|].
         destruct (K _ child gacc g2 Evis Hn) as [R1 R2].
-        assert (R3 : root_of (add_out root (resolved root inc, child) g2) = root_of g2 /\ add_out root (resolved root inc, child) g2 <> []).
+        assert (R3 : root_of (add_out root (resolved fs root inc, child) g2) = root_of g2 /\ add_out root (resolved fs root inc, child) g2 <> []).
         { destruct g2 as [|m r]; [contradiction|]. cbn. destruct (String.eqb root (n_path m)); cbn; split; try reflexivity; discriminate. }
         destruct R3 as [R3 R4]. rewrite (IHl _ gres Hf R4). congruence.
       - destruct (i_optional inc); [exact (IHl gacc gres Hf Hn) | rewrite fold_err in Hf; discriminate]. }
@@ -325,7 +325,7 @@ Proof.
       + destruct (visit fuel fs child gacc) as [g2|e] eqn:Evis; [|rewrite fold_err in Hf; discriminate].
         destruct (reaches (List.length g2) g2 child path); [rewrite fold_err in Hf; discriminate|].
         destruct (visit_reach _ _ _ _ _ Evis) as [V1 V2 V3 V4].
-        set (g3 := add_out path (resolved path inc, child) g2) in *.
+        set (g3 := add_out path (resolved fs path inc, child) g2) in *.
         assert (S23 : edges_sub g2 g3) by apply add_out_edges_sub.
         assert (Hp2 : has_node path g2 = true) by (apply V3; exact Hhas).
         assert (H3 : Inv g3).
@@ -339,7 +339,7 @@ Proof.
         destruct (IHl g3 gres Hf (add_out_nodes_sub _ _ _ _ Hp2) H3) as (I1 & I2 & I3).
         split; [exact I1|]. split; [exact (edges_sub_trans _ _ _ V2 (edges_sub_trans _ _ _ S23 I2))|].
         intros inc' c [E|Hin] Hr.
-        * subst inc'. rewrite Er in Hr. inversion Hr; subst c. exists (resolved path inc, child).
+        * subst inc'. rewrite Er in Hr. inversion Hr; subst c. exists (resolved fs path inc, child).
           split; [apply I2; apply add_out_new_edge; exact Hp2 | reflexivity].
         * exact (I3 inc' c Hin Hr).
       + destruct (i_optional inc); [|rewrite fold_err in Hf; discriminate].
